@@ -562,6 +562,170 @@ func runC15(c *Ctx, r *Report) {
 	}
 	r.Floor("R-C15.6", "assignments of the start set from the heads", nhs, 1)
 
+	// R-C15.17: whether a bound replaces the default start set is decided by the option alone
+	r.Doc("R-C15.17", "an assignment that replaces the start set (a variable that is also assigned from the heads) by something else is guarded only by tests of the LT/LTE option itself, never by what the lookups collected — unless the other arm replaces it too")
+	nrep := 0
+	for _, fx := range p.AllViews(it) {
+		info := fx.Pkg.TypesInfo
+		// the start variables: entry slices with an assignment that mentions the heads
+		startVars := map[types.Object]bool{}
+		mentions := func(e ast.Expr, want func(ast.Expr) bool) bool {
+			hit := false
+			ast.Inspect(e, func(m ast.Node) bool {
+				if x, ok := m.(ast.Expr); ok && want(x) {
+					hit = true
+				}
+				return !hit
+			})
+			return hit
+		}
+		isHeads := func(e ast.Expr) bool { v, _ := p.FieldSel(fx, e); return v != nil && v == headsField }
+		walkNoLit(fx.Body, func(nd ast.Node) bool {
+			if as, ok := nd.(*ast.AssignStmt); ok {
+				for i, l := range as.Lhs {
+					if id, ok := ast.Unparen(l).(*ast.Ident); ok && i < len(as.Rhs) && mentions(as.Rhs[i], isHeads) {
+						if o := info.ObjectOf(id); o != nil {
+							startVars[o] = true
+						}
+					}
+				}
+			}
+			return true
+		})
+		if len(startVars) == 0 {
+			continue
+		}
+		assignsStart := func(n ast.Node) bool {
+			hit := false
+			if n == nil {
+				return false
+			}
+			walkNoLit(n, func(nd ast.Node) bool {
+				if as, ok := nd.(*ast.AssignStmt); ok {
+					for _, l := range as.Lhs {
+						if id, ok := ast.Unparen(l).(*ast.Ident); ok && startVars[info.ObjectOf(id)] {
+							hit = true
+						}
+					}
+				}
+				return !hit
+			})
+			return hit
+		}
+		// what a guard reads besides the option
+		foreign := func(cond ast.Expr) string {
+			out := ""
+			var walk func(e ast.Expr)
+			walk = func(e ast.Expr) {
+				if out != "" || e == nil {
+					return
+				}
+				switch x := ast.Unparen(e).(type) {
+				case *ast.BinaryExpr:
+					walk(x.X)
+					walk(x.Y)
+				case *ast.UnaryExpr:
+					walk(x.X)
+				case *ast.BasicLit:
+				case *ast.CallExpr:
+					if id, ok := ast.Unparen(x.Fun).(*ast.Ident); ok {
+						if _, isB := info.ObjectOf(id).(*types.Builtin); isB && id.Name == "len" && len(x.Args) == 1 {
+							walk(x.Args[0])
+							return
+						}
+					}
+					out = "the result of " + types.ExprString(x.Fun) + "(…)"
+				case *ast.SelectorExpr:
+					if v, _ := p.FieldSel(fx, x); v != nil && (v == ltF || v == lteF) {
+						return
+					}
+					out = types.ExprString(x)
+				case *ast.Ident:
+					switch o := info.ObjectOf(x).(type) {
+					case *types.Nil, *types.Const:
+					case *types.Var:
+						if d := p.SoleDef(fx, o); d != nil {
+							walk(d)
+							if out != "" {
+								out = "the local " + x.Name + " (filled by the lookups)"
+							}
+							return
+						}
+						out = "the local " + x.Name
+					default:
+						out = x.Name
+					}
+				default:
+					out = types.ExprString(e)
+				}
+			}
+			walk(cond)
+			return out
+		}
+		var stack []ast.Node
+		ast.Inspect(fx.Body, func(nd ast.Node) bool {
+			if nd == nil {
+				stack = stack[:len(stack)-1]
+				return true
+			}
+			if _, ok := nd.(*ast.FuncLit); ok {
+				return false
+			}
+			stack = append(stack, nd)
+			as, ok := nd.(*ast.AssignStmt)
+			if !ok {
+				return true
+			}
+			for i, l := range as.Lhs {
+				id, ok := ast.Unparen(l).(*ast.Ident)
+				if !ok || i >= len(as.Rhs) || !startVars[info.ObjectOf(id)] {
+					continue
+				}
+				o := info.ObjectOf(id)
+				if mentions(as.Rhs[i], isHeads) || mentions(as.Rhs[i], func(e ast.Expr) bool {
+					x, ok := e.(*ast.Ident)
+					return ok && info.ObjectOf(x) == o
+				}) {
+					continue // the default itself, or an accumulation onto the variable
+				}
+				nrep++
+				bad := ""
+				var badPos ast.Node
+				for k := len(stack) - 2; k >= 0 && bad == ""; k-- {
+					if _, ok := stack[k].(*ast.FuncLit); ok {
+						break
+					}
+					ifs, ok := stack[k].(*ast.IfStmt)
+					if !ok {
+						continue
+					}
+					child := stack[k+1]
+					other := ast.Node(ifs.Else)
+					if child == ifs.Else {
+						other = ifs.Body
+					} else if child != ast.Node(ifs.Body) {
+						continue // the assignment sits in the init or the condition
+					}
+					if other != nil && assignsStart(other) {
+						continue
+					}
+					if f := foreign(ifs.Cond); f != "" {
+						bad, badPos = f, ifs
+					}
+				}
+				pos := as.Pos()
+				if badPos != nil {
+					pos = badPos.Pos()
+				}
+				r.Check(bad == "", "R-C15.17", r.Key("R-C15.17", fx, "start-replaced", id.Name), pos,
+					"the bound replaces the default start set under tests of the option only",
+					"whether the start set is replaced by the bound's entries depends on "+bad+": a bound that selects nothing (an exclusive upper bound at a root entry) leaves the heads in place and the whole log is emitted instead of nothing")
+			}
+			return true
+		})
+	}
+	r.Floor("R-C15.17", "replacements of the default start set", nrep, 2)
+
 	r.Doc("R-C15.5", "the traversal stops taking entries once it reached the lower-bound hash")
 	endHashStops(c, r, "R-C15.5")
 
